@@ -237,7 +237,7 @@ def import_step(repo: Repo, rep):
 
                 table_hit = None
                 for st_ in cfg.stmts(ast.Assign):
-                    tb = import_table(st_.ast.value)
+                    tb = import_table(st_.ast.value, lambda nm__, st_=st_: resolve_alias(cfg, st_, nm__))
                     if tb:
                         for nm_, cond_ in tb:
                             if nm_ == name:
